@@ -1047,7 +1047,7 @@ def ref_hash_of(mac):
 class RefReceiver:
     """independent parser of the client->server stream produced by `wire_up` (keys from `det_key`)"""
 
-    def __init__(self, cipher, mac, salt=0, seq=0, keyfn=None):
+    def __init__(self, cipher, mac, salt=0, seq=0, keyfn=None, letters=("C", "A", "E")):
         from cryptography.hazmat.primitives.ciphers import Cipher, algorithms, modes
         from cryptography.hazmat.primitives.ciphers.aead import AESGCM
 
@@ -1055,9 +1055,10 @@ class RefReceiver:
         alg, mode, klen, self.block = REF_CIPHER[cipher]
         self.gcm = mode == "GCM"
         self.etm = (not self.gcm) and mac.endswith("-etm@openssh.com")
-        key = det_key("C", klen, salt)
+        KL, IL, ML = letters  # RFC 4253 7.2: c2s = key C / IV A / MAC E, s2c = key D / IV B / MAC F
+        key = det_key(KL, klen, salt)
         if self.gcm:
-            self.iv = det_key("A", 12, salt)
+            self.iv = det_key(IL, 12, salt)
             self.aes = AESGCM(key)
             self.maclen = REF_GCM_TAG
         else:
@@ -1069,10 +1070,10 @@ class RefReceiver:
                 a = TripleDES(key)
             else:
                 a = algorithms.AES(key)
-            iv = det_key("A", self.block, salt)
+            iv = det_key(IL, self.block, salt)
             self.dec = Cipher(a, modes.CTR(iv) if mode == "CTR" else modes.CBC(iv)).decryptor()
             self.hash, dlen = ref_hash_of(mac)
-            self.mkey = det_key("E", dlen, salt)
+            self.mkey = det_key(ML, dlen, salt)
             self.maclen = REF_MAC_LEN[mac]
         self.seq = seq
 
@@ -1293,3 +1294,28 @@ def concurrent_senders(ctx, Packetizer, Message, cipher, mac, comp, salt, nthrea
             return ("concurrent-send:send_message-raised", case, "%s raised %s" % (name, err))
     ctx.dist("concurrent-send:%s:%s" % ("gcm" if ref.gcm else "etm" if ref.etm else "classic", comp))
     return None
+
+
+def parse_kexinit(stream):
+    """independent reader of the first packet after the banner line of a recorded (cleartext) SSH stream:
+    -> dict of the ten KEXINIT name-lists (RFC 4253 7.1), or raises ValueError"""
+    nl = stream.index(b"\n")
+    p = stream[nl + 1:]
+    n, pad = int.from_bytes(p[:4], "big"), p[4]
+    payload = p[5:4 + n - pad]
+    if not payload or payload[0] != 20:
+        raise ValueError("first packet is not KEXINIT (type %r)" % (payload[:1],))
+    pos = 17
+    names = ["kex", "hostkey", "enc_c2s", "enc_s2c", "mac_c2s", "mac_s2c", "comp_c2s", "comp_s2c", "lang_c2s", "lang_s2c"]
+    out = {}
+    for nm in names:
+        ln = int.from_bytes(payload[pos:pos + 4], "big")
+        raw = payload[pos + 4:pos + 4 + ln].decode("ascii")
+        out[nm] = raw.split(",") if raw else []
+        pos += 4 + ln
+    return out
+
+
+def rfc_choice(client_list, server_list):
+    """RFC 4253 7.1: the first algorithm on the client's name-list that is also on the server's"""
+    return next((x for x in client_list if x in server_list), None)
